@@ -189,10 +189,24 @@ func runGetSnap(e *env) {
 			sentOps += len(ops) // the server may process them (and the Get may see the result) before the acks arrive
 			cur.mc.Send(&spb.ModifyRequest{Operation: ops})
 			// the writer may have to wait for the Get to release the instance lock
-			for n := 0; n < len(ops); n++ {
+			// (however the server groups results into responses: read until nothing is owed any more -
+			// an operation the model expects to be held is owed nothing yet)
+			for {
+				owed := 0
+				for _, op := range ops {
+					if rec := cur.sent[op.GetId()]; rec.state == opSent {
+						if v, _, _ := e.model.Expect(op); v != VHold {
+							owed++
+						}
+					}
+				}
+				if owed == 0 {
+					break
+				}
 				r, err := cur.mc.RecvTimeout(20 * time.Minute)
 				if err != nil {
 					e.report("C11", "unanswered", "writer got no answer while a Get was in progress", fmt.Sprintf("%v\n%s", err, e.sim.Describe()), false)
+					break
 				}
 				e.processResults(cur, []*spb.ModifyResponse{r})
 				record()
